@@ -1,11 +1,15 @@
 """C27 — counting, set, search and histogram routines equal NumPy.
 
 Model:    lean/DaskModel/Model/Counting.lean (searchsorted block combination, bincount/histogram merges,
-          _unique_internal applied per chunk and again on the concatenation, nonzero offsets, coarsen windows)
+          _unique_internal applied per chunk and again on the concatenation, nonzero offsets, coarsen windows),
+          Model/CoarsenAlign.lean (aligned_coarsen_chunks, da.coarsen incl. the declared chunks),
+          Model/HistogramDD.lean (histogramdd / histogram2d), Model/CountingSelect.lean (digitize, compress, extract),
+          Model/RavelIndex.lean (ravel_multi_index / unravel_index, argwhere / flatnonzero / nonzero)
 Theorems: lean/DaskModel/Props/C27.lean
-Tie:      function-level `_unique_internal`, `_bincount_agg`, `_searchsorted_block`; Lean merge-of-chunks results vs
-          the real dask results and vs NumPy; API-level every routine of the statement vs NumPy for random chunkings
-          (incl. zero-length chunks), duplicates, NaN, weights, bins.
+Tie:      function-level `aligned_coarsen_chunks` (exhaustive: every chunking of n <= 8 / 12 against every factor),
+          `_unique_internal`, `_bincount_agg` (one and two levels), `_searchsorted_block`; Lean merge-of-chunks results vs
+          the real dask results (per block where the model has blocks) and vs NumPy; API-level every routine of the
+          statement vs NumPy for random chunkings (incl. zero-length chunks), duplicates, NaN, weights, bins.
 """
 from __future__ import annotations
 
@@ -21,23 +25,66 @@ READY = True
 DRIVER = "dm_chunks"
 LEAN_MODULES = ["DaskModel.Props.C27"]
 CASE_TIMEOUT_S = 30
-LEVEL_TEXT = ("Lean 4 theorems that the merge of per-chunk results equals the routine on the whole array, for every chunking "
-              "(empty chunks included): searchsorted_den (sorted a; block results with 0->-1, offsets, max, -1->0 = global "
-              "count of elements < / <= y), bincount_den (_bincount_agg of per-chunk bincounts), histogram_den (fixed edges), "
-              "bincount_weights_den (exact weights), unique_merge and unique_den (_unique_internal per chunk then on the "
-              "concatenation = sorted distinct values with first index and count; also any tree of partial merges), "
-              "unique_inverse_den (the masked-sum formula of return_inverse), nonzero_den, count_nonzero_den, isin_den, "
-              "coarsen_den (aligned chunks). Over exact ordered values; weights, float bin edges, NaN, density, histogram2d, "
-              "digitize, ravel/unravel_index, compress/extract, return_inverse and n-d inputs are validated against NumPy, "
-              "not proved.")
+LEVEL_TEXT = ("Lean 4 theorems, for every chunking (zero-length chunks included), that the chunked evaluation equals the routine "
+              "on the whole array — one or more per clause of the statement: searchsorted_den (sorted a; block results with "
+              "0->-1, offsets, max, -1->0 = global count of elements < / <= y); bincount_den, bincount_tree(_den) (_bincount_agg, "
+              "also as the two-level tree reduction of split_every), bincount_weights_den (exact weights); histogram_den, "
+              "histogramdd_den, histogram2d_den (+ _rejects: coordinate arrays chunked differently raise, documented) with fixed "
+              "edges and the closed last bin; digitize_den + digitize_increasing / digitize_decreasing (NumPy's documented "
+              "brackets for right / left, increasing / decreasing bins); unique_merge, unique_den, unique_spec_char, "
+              "unique_chunked_char (sorted distinct values with FIRST index and multiplicity, any tree of partial merges), "
+              "unique_inverse_den; nonzero_den, count_nonzero_den, argwhere_den, argwhere_chunked, flatnonzero_den, "
+              "nonzero_nd_den (n-d, as unravelled flat positions); isin_den; ravel/unravel: unravel_ravel_C, ravel_unravel_C, "
+              "ravel_multi_index_unravel, unravel_index_ravel (round trips, C and F order, exact error guard), "
+              "ravel_multi_index_modes (raise/wrap/clip stay in bounds), unravel_blocks; compress_den, compress_rejects, "
+              "extract_den (condition no longer than the axis, any common chunking); coarsen: aligned_coarsen_chunks_spec "
+              "(never raises; positive multiples of the factor then the remainder; same total; (0,) for an empty axis), "
+              "aligned_coarsen_chunks_fixpoint, coarsen_any_chunking (guard + alignment + rechunk + block-wise chunk.coarsen = "
+              "chunk.coarsen of the whole axis for EVERY chunking), coarsen_rejects, coarsen_declared_chunks, coarsen_den. "
+              "All over exact ordered values (Nat) along one axis. Validated against NumPy only, not proved: float data / float "
+              "bin edges, NaN, weights of histogram(2d/dd), density, bins given as count + range, return_inverse on n-d input, "
+              "n-d coarsen with several axes (the 1-d theorem per axis), compress along an axis of an n-d array and with a "
+              "NumPy condition (integer fancy indexing, C20/C21), isin/searchsorted with n-d operands, dtype of every result.")
 LEVEL_NOTE = ("Trusted: Lean kernel + standard axioms; the harness; NumPy's per-chunk kernels (np.searchsorted/bincount/histogram/"
-              "unique) specified as counting functions and validated against NumPy on every case.")
-TECHNIQUE = "Lean 4 proof (merge-of-per-chunk-results lemmas: counting, sorted-prefix, set union, offsets) + differential correspondence"
+              "histogramdd/unique/digitize/ravel_multi_index/unravel_index) specified by their mathematical meaning in the model "
+              "and validated against NumPy on every case; rechunk / blockwise chunk unification (C23/C25) entering as 'same "
+              "values, given common chunks' (the common chunks are read from the real unify_chunks at run time); np.argsort on "
+              "<= 16 elements being stable (exhaustive function-level diff of aligned_coarsen_chunks; the post-condition theorem "
+              "does not depend on the order).")
+TECHNIQUE = ("Lean 4 proof (merge-of-per-chunk-results lemmas: counting, sorted-prefix, set union, offsets; loop post-condition "
+             "of aligned_coarsen_chunks; Horner/divmod round trips) + differential correspondence (exhaustive small spaces + "
+             "structured random streams)")
 ASSUMPTIONS = [
-    "np.searchsorted(sorted block, y, side) = number of elements < y (left) / <= y (right); np.bincount / np.histogram / np.unique count as specified in Model/Counting.lean (validated against NumPy on every case)",
-    "element values enter the model only through <, <=, == (harness uses small non-negative ints)",
+    "np.searchsorted(sorted block, y, side) = number of elements < y (left) / <= y (right); np.bincount / np.histogram / np.histogramdd / np.unique / np.digitize count as specified in Model/Counting.lean, HistogramDD.lean, CountingSelect.lean (validated against NumPy on every case)",
+    "element values enter the model only through <, <=, == (the harness interns values order-preservingly as small non-negative ints; NaN as the largest value for searchsorted)",
+    "rechunk keeps the values (C23: rechunk_values_unchanged) and blockwise brings its operands to common chunks (C25); the model takes the common chunks as a parameter",
+    "np.argsort (default kind) is stable on the <= 16 chunk sizes aligned_coarsen_chunks sorts here (insertion sort); with more chunks only the proved post-condition is checked",
+    "histogram2d / histogramdd with a sequence of coordinate arrays require identical chunking (documented; ValueError otherwise) and compress requires len(condition) <= axis length (dask raises for a longer condition even when NumPy would accept trailing False entries)",
 ]
-TRUSTED = ["float bin-edge comparisons, weights and density normalisation are validated against NumPy, not modelled"]
+TRUSTED = ["float bin-edge comparisons, weights and density normalisation are validated against NumPy, not modelled",
+           "indices(shape) raveled in C order = unravel_index of the flat position (validated: argwhere vs the Lean model vs np.argwhere)"]
+
+
+def _api(fn):
+    """An exception raised inside the real code (a dask frame in the traceback) is a failure of the property with the
+    current input, not a harness error; anything else (a generator / harness bug, the watchdog) is re-raised."""
+    import functools
+    import os
+    import traceback
+
+    @functools.wraps(fn)
+    def wrapped(ctx, inp):
+        try:
+            return fn(ctx, inp)
+        except Exception as ex:
+            if type(ex).__name__ in ("CaseTimeout", "ModelUnavailable"):
+                raise
+            frames = traceback.extract_tb(ex.__traceback__)
+            if not any((os.sep + "dask" + os.sep) in f.filename for f in frames):
+                raise
+            what = inp.get("op", fn.__name__[5:]) if isinstance(inp, dict) else fn.__name__[5:]
+            ctx.fail(f"{what}: the real code raised {type(ex).__name__}", observed=str(ex)[:200])
+    return wrapped
 
 
 def _split(xs, cs):
@@ -70,21 +117,49 @@ def _vals(rng, n, hi, kind="int"):
     return [rng.randint(0, hi) for _ in range(n)]
 
 
+def _intern(*arrs):
+    """Order-preserving interning of the values of several arrays as small non-negative ints (NaN = the largest)."""
+    import numpy as np
+    allv = np.concatenate([np.asarray(a, dtype="f8").ravel() for a in arrs]) if arrs else np.array([])
+    u = np.unique(allv)                                   # sorted, NaN (collapsed) last
+    out = []
+    for a in arrs:
+        a = np.asarray(a, dtype="f8").ravel()
+        r = np.searchsorted(u, a)                         # NaN -> position of the NaN entry (the last one)
+        out.append([int(t) for t in r])
+    return out
+
+
 def case_searchsorted(ctx, inp):
     import numpy as np
     import dask.array as da
     setup_dask()
-    a = np.array(sorted(inp["a"]), dtype=inp.get("dtype", "i8"))
-    v = np.array(inp["v"], dtype=a.dtype).reshape(inp.get("vshape", [len(inp["v"])]))
+    dt = inp.get("dtype", "i8")
+    a = np.array(inp["a"], dtype=dt)
+    v = np.array(inp["v"], dtype=dt).reshape(inp.get("vshape", [len(inp["v"])]))
+    if inp.get("anan") or inp.get("vnan"):          # NaN runs: NumPy sorts NaN last and treats it as the largest value
+        a[np.array(inp.get("anan") or [False] * a.size, dtype=bool)] = np.nan
+        v.reshape(-1)[np.array(inp.get("vnan") or [False] * v.size, dtype=bool)] = np.nan
+        ctx.branch("searchsorted:nan")
+    a = np.sort(a)
     side = inp["side"]
     da_a = da.from_array(a, chunks=(tuple(inp["achunks"]),))
     da_v = da.from_array(v, chunks=tuple(tuple(c) for c in inp["vchunks"]))
     e = np.searchsorted(a, v, side=side)
     r = da.searchsorted(da_a, da_v, side=side)
     g = r.compute(scheduler="sync")
-    m = ctx.lean(Sym("searchsorted"), side == "right", _split(a, inp["achunks"]), [int(x) for x in v.ravel()])
+    ia, iv = _intern(a, v.ravel())
+    m = ctx.lean(Sym("searchsorted"), side == "right", _split(ia, inp["achunks"]), iv)
     ctx.eq("searchsorted: Lean block combination vs dask", m, np.asarray(g).ravel().tolist())
     _cmp(ctx, "searchsorted", g, e)
+    bnd = set()
+    off = 0
+    for c in inp["achunks"]:                      # needles equal to a value sitting at a chunk boundary
+        if c:
+            bnd.update((ia[off], ia[off + c - 1]))
+        off += c
+    if len(inp["achunks"]) > 1 and bnd & set(iv):
+        ctx.branch("searchsorted:needle-at-chunk-boundary")
     if 0 in inp["achunks"]:
         ctx.branch("searchsorted:empty-chunk")
     if len(inp["achunks"]) > 1:
@@ -141,6 +216,16 @@ def case_bincount(ctx, inp):
     if w is None and len(parts) > 1:
         agg = _bincount_agg(parts, dtype=parts[0].dtype)
         ctx.eq("_bincount_agg", ctx.lean(Sym("bincount"), _split(x, cs), kw["minlength"])[0], agg.tolist())
+        k = inp.get("split_every")
+        if k and len(parts) > k:
+            # the grouping of _tree_reduce: consecutive groups of k partial results, then the group results
+            groups = [parts[i:i + k] for i in range(0, len(parts), k)]
+            two = _bincount_agg([_bincount_agg(gp, dtype=parts[0].dtype) for gp in groups], dtype=parts[0].dtype)
+            bl = _split(x, cs)
+            mt = ctx.lean(Sym("bincount_tree"), [bl[i:i + k] for i in range(0, len(bl), k)], kw["minlength"])
+            ctx.eq("_bincount_agg in two levels: Lean tree = Lean whole", mt[0], mt[1])
+            ctx.eq("_bincount_agg in two levels vs Lean", mt[0], two.tolist())
+            ctx.branch("bincount:tree:model")
 
 
 def case_histogram(ctx, inp):
@@ -266,8 +351,18 @@ def case_nonzero(ctx, inp):
             ctx.fail("nonzero: number of index arrays differs", observed=len(g))
         for a, b in zip(g, e):
             _cmp(ctx, "nonzero", a, b)
+        if x.size and len(g) == x.ndim:
+            k = (int(x.size) + int(np.count_nonzero(x))) % x.ndim
+            m = ctx.lean(Sym("argwhere"), list(x.shape), [int(bool(t)) for t in x.ravel()], k)
+            ctx.eq("nonzero: Lean column of argwhere vs dask", m[2], np.asarray(g[k]).tolist())
+            ctx.branch("nonzero:model-nd")
     elif op == "argwhere":
-        _cmp(ctx, "argwhere", da.argwhere(d).compute(scheduler="sync"), np.argwhere(x))
+        g = da.argwhere(d).compute(scheduler="sync")
+        _cmp(ctx, "argwhere", g, np.argwhere(x))
+        if x.size:
+            m = ctx.lean(Sym("argwhere"), list(x.shape), [int(bool(t)) for t in x.ravel()], 0)
+            ctx.eq("argwhere: Lean (unravelled flat positions of the non-zeros) vs dask", m[0], np.asarray(g).tolist())
+            ctx.branch("argwhere:model")
     elif op == "flatnonzero":
         g = da.flatnonzero(d).compute(scheduler="sync")
         _cmp(ctx, "flatnonzero", g, np.flatnonzero(x))
@@ -300,6 +395,9 @@ def case_misc(ctx, inp):
              np.isin(x, t, invert=inp.get("invert", False)))
     elif op == "digitize":
         x = np.array(inp["x"], dtype=inp.get("dtype", "i8")).reshape(inp["shape"])
+        if inp.get("nan") and x.dtype.kind == "f":
+            x.reshape(-1)[np.array(inp["nan"], dtype=bool)] = np.nan
+            ctx.branch("digitize:nan")
         bins = np.array(sorted(inp["bins"], reverse=inp.get("decreasing", False)), dtype=x.dtype)
         d = da.from_array(x, chunks=tuple(tuple(c) for c in inp["chunks"]))
         _cmp(ctx, "digitize", da.digitize(d, bins, right=inp["right"]).compute(scheduler="sync"), np.digitize(x, bins, right=inp["right"]))
@@ -331,15 +429,19 @@ def case_misc(ctx, inp):
         red = {"sum": np.sum, "max": np.max, "min": np.min}[inp["red"]]
         from dask.array import chunk
         ok = all(x.shape[i] % dv == 0 for i, dv in axes.items())
+        axes0 = dict(axes)          # chunk.coarsen adds the missing axes (factor 1) to the dict it is given
         try:
-            r = da.coarsen(red, d, axes, trim_excess=inp["trim"])
-        except ValueError:
-            if not inp["trim"] and not ok:
+            r = da.coarsen(red, d, dict(axes0), trim_excess=inp["trim"])
+            g = r.compute(scheduler="sync")
+        except Exception as ex:
+            if isinstance(ex, ValueError) and not inp["trim"] and not ok:
                 ctx.branch("coarsen:misaligned-rejected")
                 return
-            raise
-        e = chunk.coarsen(red, x, axes, trim_excess=inp["trim"])
-        g = r.compute(scheduler="sync")
+            ctx.fail(f"coarsen raised {type(ex).__name__} (n-d, trim_excess={inp['trim']})",
+                     observed=[[list(c) for c in chunks], axes0, str(ex)[:160]])
+            return
+        e = chunk.coarsen(red, x, dict(axes0), trim_excess=inp["trim"])
+        axes = axes0
         _cmp(ctx, "coarsen", g, e)
         if tuple(sum(c) for c in r.chunks) != e.shape:
             ctx.fail("coarsen: lazy chunks do not add up to the result shape", observed=r.chunks, expected=list(e.shape))
@@ -351,10 +453,20 @@ def case_misc(ctx, inp):
         # function level oracle on aligned_coarsen_chunks
         from dask.array.routines import aligned_coarsen_chunks
         for i, dv in axes.items():
+            if i >= x.ndim:
+                continue
             al = aligned_coarsen_chunks(chunks[i], dv)
-            if sum(al) != sum(chunks[i]) or any(c <= 0 for c in al) or any(c % dv for c in al[:-1]) or (
-                    al and al[-1] % dv and al[-1] != sum(chunks[i]) % dv):
-                ctx.fail("aligned_coarsen_chunks: result not aligned / does not add up", observed=[chunks[i], dv, al])
+            bad = _aligned_postcond(list(chunks[i]), dv, al)
+            if bad:
+                ctx.fail("aligned_coarsen_chunks: " + bad, observed=[chunks[i], dv, al])
+            # the declared chunks of every coarsened axis, as proved in coarsen_declared_chunks
+            md = ctx.lean(Sym("da_coarsen"), True, dv, list(chunks[i]), [0] * x.shape[i], _np_order(list(chunks[i]), dv))
+            ctx.eq("coarsen (n-d): Lean declared chunks of a coarsened axis vs r.chunks", md[2] if md[0] == "ok" else md,
+                   list(r.chunks[i]))
+        if x.ndim > 1 and len([1 for i in axes if i < x.ndim]) > 1:
+            ctx.branch("coarsen:nd:several-axes")
+        if any(_align_class(list(chunks[i]), dv) == "max-multiple-others-not" for i, dv in axes.items() if i < x.ndim):
+            ctx.branch("coarsen:nd:max-multiple-others-not")
     elif op in ("compress", "extract"):
         x = np.array(inp["x"], dtype="i8").reshape(inp["shape"])
         d = da.from_array(x, chunks=tuple(tuple(c) for c in inp["chunks"]))
@@ -362,15 +474,475 @@ def case_misc(ctx, inp):
         if op == "compress":
             ax = inp.get("axis")
             dc = da.from_array(cond, chunks=(tuple(inp["cchunks"]),)) if inp.get("dask_cond") else cond
-            _cmp(ctx, "compress", da.compress(dc, d, axis=ax).compute(scheduler="sync"), np.compress(cond, x, axis=ax))
+            ln = x.size if ax is None else x.shape[ax]
+            try:
+                e = np.compress(cond, x, axis=ax)
+            except IndexError:
+                e = None
+            if len(cond) > ln:
+                ctx.branch("compress:condition-longer-than-axis:" + ("surplus-false" if e is not None else "surplus-true"))
+            try:
+                g = da.compress(dc, d, axis=ax).compute(scheduler="sync")
+            except IndexError as ex:
+                if e is not None:
+                    ctx.fail("compress raised IndexError where NumPy does not", observed=str(ex)[:160], expected=e.tolist())
+                g = None
+            if g is not None:
+                if e is None:
+                    ctx.fail("compress accepted a condition with a True entry beyond the axis", observed=np.asarray(g).tolist())
+                else:
+                    _cmp(ctx, "compress", g, e)
+            if x.ndim == 1 and not inp.get("dask_cond"):
+                m = ctx.lean(Sym("compress_np"), [int(c) for c in cond], [int(v) for v in x])
+                ctx.eq("compress (NumPy condition): Lean vs NumPy", m, ["raised"] if e is None else ["ok", e.tolist()])
+                ctx.branch("compress:np-condition:model")
         else:
             c2 = cond[: x.size].reshape(x.shape) if cond.size >= x.size else np.resize(cond, x.shape)
             _cmp(ctx, "extract", da.extract(da.from_array(c2, chunks=d.chunks), d).compute(scheduler="sync"), np.extract(c2, x))
     ctx.branch("misc:" + op)
 
 
-CASES = {"searchsorted": case_searchsorted, "bincount": case_bincount, "histogram": case_histogram,
-         "unique": case_unique, "unique_internal": case_unique_internal, "nonzero": case_nonzero, "misc": case_misc}
+# ---------------------------------------------------------------------------------------------------------------------
+# coarsen: aligned_coarsen_chunks (function level) and da.coarsen along one axis against the Lean model
+# ---------------------------------------------------------------------------------------------------------------------
+
+def _aligned_postcond(cs, m, al):
+    """What `aligned_coarsen_chunks_spec` proves of the model, evaluated on the REAL output."""
+    n = sum(cs)
+    if sum(al) != n:
+        return "total changed"
+    if n == 0:
+        return None if tuple(al) == (0,) else "an empty axis must keep the single chunk (0,)"
+    if any(c <= 0 for c in al):
+        return "non-positive chunk"
+    if any(c % m for c in al[:-1]):
+        return "a chunk before the last is not a multiple of the factor"
+    if al[-1] % m and al[-1] != n % m:
+        return "the last chunk is neither a multiple nor the remainder"
+    if n % m and al[-1] != n % m:
+        return "the remainder is not the last chunk"
+    return None
+
+
+def _np_order(cs, m):
+    """`chunk_modification_order` exactly as aligned_coarsen_chunks computes it (same NumPy, same tie-breaking): the
+    model takes the order as a parameter because np.argsort (quicksort / SIMD sort) is not stable."""
+    import numpy as np
+    chunks = np.array(cs)
+    new = chunks - chunks % m
+    validity = new == chunks
+    valid, invalid = np.where(validity)[0], np.where(~validity)[0]
+    order = [int(i) for i in (*invalid[np.argsort(new[invalid])], *valid[np.argsort(new[valid])])]
+    assert sorted(order) == list(range(len(cs)))      # an argsort is a permutation: what `ValidOrder` needs
+    return order
+
+
+def _align_tags(cs, m):
+    """Every alignment class the tuple belongs to (the classes overlap)."""
+    mis = [c % m != 0 for c in cs]
+    t = set()
+    if not any(mis):
+        return {"all-multiples"}
+    if max(cs) % m == 0:
+        t.add("max-multiple-others-not")
+    if cs[0] % m == 0:
+        t.add("first-multiple-others-not")
+    if cs[-1] % m == 0:
+        t.add("last-multiple-others-not")
+    if mis[0] and not any(mis[1:]):
+        t.add("only-first-misaligned")
+    if mis[-1] and not any(mis[:-1]):
+        t.add("only-last-misaligned")
+    if sum(mis) >= 2:
+        t.add("several-misaligned")
+    if sum(mis) == 1 and not mis[0] and not mis[-1]:
+        t.add("only-an-inner-chunk-misaligned")
+    return t
+
+
+def _align_class(cs, m):
+    mis = [c % m != 0 for c in cs]
+    if not any(mis):
+        return "all-multiples"
+    if max(cs) % m == 0:
+        return "max-multiple-others-not"
+    if mis[0] and not any(mis[1:]):
+        return "only-first-misaligned"
+    if mis[-1] and not any(mis[:-1]):
+        return "only-last-misaligned"
+    if cs[0] % m == 0:
+        return "first-multiple-others-not"
+    return "several-misaligned"
+
+
+def case_aligned(ctx, inp):
+    """aligned_coarsen_chunks: model vs code on a whole family of chunk tuples against one factor (one Lean call)."""
+    from dask.array.routines import aligned_coarsen_chunks
+    m = inp["m"]
+    if "n" in inp:
+        css = [list(c) for c in comps(inp["n"])]
+        if inp.get("zeros"):   # one zero-length chunk inserted at a position that varies with the tuple
+            css = [c[:k] + [0] + c[k:] for c in css for k in [(sum(i * v for i, v in enumerate(c)) + len(c)) % (len(c) + 1)]]
+    else:
+        css = inp["chunks"]
+    orders = [_np_order(cs, m) for cs in css]
+    model = ctx.lean(Sym("aligned_coarsen"), css, m, orders)
+    stable = ctx.lean(Sym("aligned_coarsen"), css, m, [[] for _ in css])   # the model's own (stable) tie-breaking
+    seen = set()
+    exact = 0
+    for cs, mo, ms in zip(css, model, stable):
+        if ms[0] != "ok" or _aligned_postcond(cs, m, ms[1]):
+            ctx.disagree("aligned_coarsen_chunks: the Lean model with a stable argsort violates the proved post-condition", ms, [cs, m])
+        if ms != mo:
+            seen.add("tie-broken-differently-from-stable")
+        try:
+            al = aligned_coarsen_chunks(tuple(cs), m)
+        except Exception as ex:  # the model (and the theorem) say it never raises for a positive factor
+            ctx.fail(f"aligned_coarsen_chunks raised {type(ex).__name__}", observed=[cs, m, str(ex)[:120]])
+            continue
+        bad = _aligned_postcond(cs, m, al)
+        if bad:
+            ctx.fail("aligned_coarsen_chunks: " + bad, observed=[cs, m, list(al)])
+        exact += 1
+        if mo != ["ok", list(al)]:
+            ctx.disagree("aligned_coarsen_chunks: Lean model vs code", mo, [cs, m, list(al)])
+        seen |= _align_tags(cs, m)
+        if sum(cs) % m:
+            seen.add("remainder")
+        if 0 in cs:
+            seen.add("zero-length-chunk")
+    for k in seen:
+        ctx.branch("aligned:" + k)
+    ctx.note("aligned_coarsen_chunks tuples diffed exactly", exact)
+
+
+def case_coarsen1d(ctx, inp):
+    """da.coarsen along the axis of a 1-d array: real result, per block and declared chunks, vs Lean `daCoarsen`."""
+    import numpy as np
+    import dask
+    import dask.array as da
+    from dask.array import chunk
+    setup_dask()
+    x = np.array(inp["x"], dtype="i8")
+    cs = tuple(inp["chunks"])
+    d, trim = inp["d"], inp["trim"]
+    red = {"sum": np.sum, "max": np.max, "min": np.min}[inp.get("red", "sum")]
+    dx = da.from_array(x, chunks=(cs,))
+    m = ctx.lean(Sym("da_coarsen"), trim, d, list(cs), [int(v) for v in x], _np_order(list(cs), d))
+    try:
+        e = chunk.coarsen(red, x, {0: d}, trim_excess=trim)
+    except ValueError:
+        e = None
+    cls = _align_class(cs, d)
+    try:
+        r = da.coarsen(red, dx, {0: d}, trim_excess=trim)
+        blocks = dask.compute(*[r.blocks[i] for i in range(r.numblocks[0])], scheduler="sync")
+        g = r.compute(scheduler="sync")
+    except Exception as ex:
+        if e is None and isinstance(ex, ValueError):
+            ctx.eq("coarsen: ragged length without trim_excess is rejected by the model too", m, ["raised"])
+            ctx.branch("coarsen1d:rejected")
+            return
+        ctx.fail(f"coarsen raised {type(ex).__name__} on chunks of class '{cls}' (trim_excess={trim})",
+                 observed=[list(cs), d, str(ex)[:160]], expected=None if e is None else e.tolist())
+        return
+    if e is None:
+        ctx.fail("coarsen accepted a length that chunk.coarsen rejects", observed=np.asarray(g).tolist())
+        return
+    _cmp(ctx, f"coarsen (1-d, chunks of class '{cls}', trim_excess={trim})", g, e)
+    if tuple(sum(c) for c in r.chunks) != e.shape:
+        ctx.fail("coarsen: lazy chunks do not add up to the result shape", observed=r.chunks, expected=list(e.shape))
+    for b, c in zip(blocks, r.chunks[0]):
+        if b.shape != (c,):
+            ctx.fail("coarsen: a computed block does not have its declared length", observed=[list(b.shape), r.chunks[0]])
+    if m[0] != "ok":
+        ctx.disagree("coarsen: the model raises, the code does not", m, np.asarray(g).tolist())
+        return
+    ctx.eq("coarsen: Lean declared chunks vs r.chunks", m[2], list(r.chunks[0]))
+    if inp.get("red", "sum") == "sum":
+        ctx.eq("coarsen: Lean block-wise result = Lean chunk.coarsen of the whole axis", [v for b in m[1] for v in b], m[3])
+        ctx.eq("coarsen: Lean vs dask", m[3], np.asarray(g).tolist())
+        mb = [b for b in m[1]]
+        while len(mb) > len(blocks) and mb[-1] == []:      # the declaration leaves a trailing empty block out
+            mb.pop()
+        ctx.eq("coarsen: Lean blocks vs computed blocks", mb, [np.asarray(b).tolist() for b in blocks])
+    for t in _align_tags(list(cs), d) if len(cs) else ():
+        ctx.branch("coarsen1d:" + t + (":trim" if trim else ""))
+    if 0 in cs:
+        ctx.branch("coarsen1d:zero-length-chunk")
+    if len(x) % d:
+        ctx.branch("coarsen1d:excess-trimmed")
+    if d > len(x):
+        ctx.branch("coarsen1d:factor-exceeds-axis")
+
+
+# ---------------------------------------------------------------------------------------------------------------------
+# histogramdd / histogram2d with explicit integer edges against the Lean model
+# ---------------------------------------------------------------------------------------------------------------------
+
+def case_histdd(ctx, inp):
+    import numpy as np
+    import dask.array as da
+    setup_dask()
+    edges = [list(e) for e in inp["edges"]]
+    if inp["form"] == "xy":
+        x, y = np.array(inp["x"], dtype="i8"), np.array(inp["y"], dtype="i8")
+        xb, yb = _split(x, inp["xchunks"]), _split(y, inp["ychunks"])
+        m = ctx.lean(Sym("hist2d"), edges[0], edges[1], xb, yb)
+        bins = [np.array(e, dtype="i8") for e in edges]
+        e = np.histogram2d(x, y, bins=bins)[0]
+        try:
+            r = da.histogram2d(da.from_array(x, chunks=(tuple(inp["xchunks"]),)), da.from_array(y, chunks=(tuple(inp["ychunks"]),)),
+                               bins=bins)[0]
+            g = r.compute(scheduler="sync")
+        except ValueError as ex:
+            if list(inp["xchunks"]) != list(inp["ychunks"]) and "chunked identically" in str(ex):
+                # documented restriction (histogramdd docstring); the model has the same guard
+                ctx.eq("histogram2d: coordinate arrays chunked differently are rejected by the model too", m, ["raised"])
+                ctx.branch("histdd:xy:different-chunking-rejected")
+                return
+            ctx.fail("histogram2d raised ValueError", observed=str(ex)[:160])
+            return
+        if list(inp["xchunks"]) != list(inp["ychunks"]):
+            ctx.fail("histogram2d accepted coordinate arrays chunked differently", observed=np.asarray(g).tolist())
+            return
+        rows = list(zip(x.tolist(), y.tolist()))
+    else:
+        smp = np.array(inp["rows"], dtype="i8").reshape(len(inp["rows"]), len(edges))
+        rb = [[[int(v) for v in row] for row in smp[a:b]] for a, b in _bounds(inp["chunks"])]
+        mm = ctx.lean(Sym("histdd"), edges, rb)
+        m = ["ok", mm[0], mm[1]]
+        bins = [np.array(e, dtype="i8") for e in edges]
+        e = np.histogramdd(smp, bins=bins)[0]
+        r = da.histogramdd(da.from_array(smp, chunks=(tuple(inp["chunks"]), (len(edges),))), bins=bins)[0]
+        g = r.compute(scheduler="sync")
+        rows = [tuple(t) for t in smp.tolist()]
+    _cmp(ctx, "histogram" + ("2d" if inp["form"] == "xy" else "dd"), g, e)
+    if m[0] != "ok":
+        ctx.disagree("histogramdd: the model raises, the code does not", m, np.asarray(g).tolist())
+        return
+    ctx.eq("histogramdd: Lean sum of per-chunk histograms = whole", m[1], m[2])
+    ctx.eq("histogramdd: Lean vs NumPy", m[2], [int(v) for v in e.ravel()])
+    ctx.branch("histdd:" + inp["form"] + ":model")
+    if any(v == ed[-1] for row in rows for v, ed in zip(row, edges)):
+        ctx.branch("histdd:value-on-closed-last-edge")
+    if any(v in ed[1:-1] for row in rows for v, ed in zip(row, edges)):
+        ctx.branch("histdd:value-on-inner-edge")
+    if len(inp.get("chunks", inp.get("xchunks"))) > 1:
+        ctx.branch("histdd:multi-block")
+    if 0 in inp.get("chunks", inp.get("xchunks")):
+        ctx.branch("histdd:empty-chunk")
+
+
+def _bounds(cs):
+    out, i = [], 0
+    for c in cs:
+        out.append((i, i + c))
+        i += c
+    return out
+
+
+# ---------------------------------------------------------------------------------------------------------------------
+# digitize / compress / ravel_multi_index / unravel_index against the Lean model
+# ---------------------------------------------------------------------------------------------------------------------
+
+def case_digitize1d(ctx, inp):
+    import numpy as np
+    import dask.array as da
+    setup_dask()
+    x = np.array(inp["x"], dtype="i8")
+    bins = np.array(inp["bins"], dtype="i8")
+    right = inp["right"]
+    cs = tuple(inp["chunks"])
+    m = ctx.lean(Sym("digitize"), right, [int(b) for b in bins], _split(x, cs))
+    try:
+        e = np.digitize(x, bins, right=right)
+    except ValueError:
+        e = None
+    try:
+        r = da.digitize(da.from_array(x, chunks=(cs,)), bins, right=right)
+        import dask
+        blocks = dask.compute(*[r.blocks[i] for i in range(r.numblocks[0])], scheduler="sync")
+    except ValueError as ex:
+        if e is None:
+            ctx.eq("digitize: non-monotonic bins are rejected by the model too", m, ["raised"])
+            ctx.branch("digitize:non-monotonic-rejected")
+            return
+        ctx.fail("digitize raised ValueError where NumPy does not", observed=str(ex)[:160], expected=e.tolist())
+        return
+    if e is None:
+        ctx.fail("digitize accepted bins that NumPy rejects", observed=[b.tolist() for b in blocks])
+        return
+    g = np.concatenate([np.asarray(b) for b in blocks]) if blocks else np.array([], dtype=e.dtype)
+    _cmp(ctx, "digitize", g.astype(e.dtype) if g.size == 0 else g, e)
+    if m[0] != "ok":
+        ctx.disagree("digitize: the model raises, the code does not", m, g.tolist())
+        return
+    ctx.eq("digitize: Lean per block vs dask per block", m[1], [np.asarray(b).tolist() for b in blocks])
+    inc = all(a <= b for a, b in zip(inp["bins"], inp["bins"][1:]))
+    ctx.branch("digitize:model:" + ("increasing" if inc else "decreasing") + (":right" if right else ":left"))
+    if set(inp["x"]) & set(inp["bins"]):
+        ctx.branch("digitize:value-equal-to-a-bin")
+    if len(set(inp["bins"])) < len(inp["bins"]):
+        ctx.branch("digitize:duplicate-bins")
+
+
+def case_compress1d(ctx, inp):
+    """da.compress with a dask condition chunked on its own: per-block results vs the Lean model on the common chunks."""
+    import numpy as np
+    import dask
+    import dask.array as da
+    from dask.array.core import unify_chunks
+    setup_dask()
+    x = np.array(inp["x"], dtype="i8")
+    cond = np.array(inp["cond"], dtype=bool)
+    d = da.from_array(x, chunks=(tuple(inp["chunks"]),))
+    dc = da.from_array(cond, chunks=(tuple(inp["cchunks"]),))
+    if len(cond) > len(x):
+        m = ctx.lean(Sym("compress"), [len(cond)], [int(c) for c in cond], [int(v) for v in x])
+        try:
+            e = np.compress(cond, x)
+        except IndexError:
+            e = None
+        try:
+            g = da.compress(dc, d).compute(scheduler="sync")
+        except (IndexError, ValueError) as ex:
+            ctx.eq("compress: a dask condition longer than the axis is rejected by the model too", m, ["raised"])
+            if e is not None:
+                # NumPy ignores surplus entries that are all False; a lazy condition cannot be inspected: known finding
+                ctx.fail("compress with a dask condition longer than the axis raises although its surplus is all False",
+                         sig="compress:dask-condition-longer-than-axis:raises", observed=str(ex)[:160], expected=e.tolist())
+            ctx.branch("compress1d:condition-too-long-rejected")
+            return
+        if e is None:
+            ctx.fail("compress accepted a condition with a True entry beyond the axis", observed=np.asarray(g).tolist())
+        else:
+            _cmp(ctx, "compress (dask condition longer than the axis)", g, e)
+        return
+    e = np.compress(cond, x)
+    r = da.compress(dc, d)
+    blocks = dask.compute(*[r.blocks[i] for i in range(r.numblocks[0])], scheduler="sync")
+    g = r.compute(scheduler="sync")
+    _cmp(ctx, "compress (dask condition)", g, e)
+    common = unify_chunks(d[: len(cond)], "i", dc, "i")[0]["i"]
+    if sum(common) != len(cond) or len(common) != len(blocks):
+        ctx.fail("compress: the blocks of the result are not those of the chunks common to axis and condition",
+                 observed=[list(common), len(blocks)])
+        return
+    m = ctx.lean(Sym("compress"), list(common), [int(c) for c in cond], [int(v) for v in x])
+    if m[0] != "ok":
+        ctx.disagree("compress: the model raises, the code does not", m, g.tolist())
+        return
+    ctx.eq("compress: Lean per block vs dask per block", m[1], [np.asarray(b).tolist() for b in blocks])
+    ctx.eq("compress: Lean blocks concatenated = Lean np.compress", [v for b in m[1] for v in b], m[2])
+    ctx.eq("compress: Lean vs NumPy", m[2], e.tolist())
+    ctx.branch("compress1d:model")
+    if len(cond) < len(x):
+        ctx.branch("compress1d:condition-shorter")
+    if list(inp["chunks"]) != list(inp["cchunks"]):
+        ctx.branch("compress1d:different-chunking")
+    if 0 in common:
+        ctx.branch("compress1d:empty-common-chunk")
+
+
+def case_ravel(ctx, inp):
+    import numpy as np
+    import dask.array as da
+    setup_dask()
+    dims = tuple(inp["dims"])
+    k = len(dims)
+    n = len(inp["idx"]) // k if k else 0
+    idx = np.array(inp["idx"], dtype="i8").reshape(k, n)
+    order, mode = inp["order"], inp["mode"]
+    try:
+        e = np.ravel_multi_index(tuple(idx), dims, mode=mode, order=order)
+    except ValueError:
+        e = None
+    cols = _bounds(inp["chunks1"])
+    m = ctx.lean(Sym("ravel"), Sym(order), Sym(mode), list(dims),
+                 [[[int(idx[r, c]) for r in range(k)] for c in range(a, b)] for a, b in cols])
+    try:
+        if inp.get("form") == "tuple":
+            arg = tuple(da.from_array(idx[r], chunks=(tuple(inp["chunks1"]),)) for r in range(k))
+        else:
+            arg = da.from_array(idx, chunks=(tuple(inp["chunks0"]), tuple(inp["chunks1"])))
+        g = da.ravel_multi_index(arg, dims, mode=mode, order=order).compute(scheduler="sync")
+    except ValueError as ex:
+        if e is None:
+            ctx.eq("ravel_multi_index: an invalid coordinate is rejected by the model too", m, ["raised"])
+            ctx.branch("ravel:rejected:" + mode)
+            return
+        ctx.fail("ravel_multi_index raised ValueError where NumPy does not", observed=str(ex)[:160], expected=e.tolist())
+        return
+    if e is None:
+        ctx.fail("ravel_multi_index accepted coordinates NumPy rejects", observed=np.asarray(g).tolist())
+        return
+    _cmp(ctx, "ravel_multi_index", g, e)
+    if m[0] != "ok":
+        ctx.disagree("ravel_multi_index: the model raises, the code does not", m, np.asarray(g).tolist())
+        return
+    ctx.eq("ravel_multi_index: Lean vs dask", [v for b in m[1] for v in b], np.asarray(g).tolist())
+    ctx.branch("ravel:model:" + order + ":" + mode)
+    if len(inp.get("chunks0", [k])) > 1 and inp.get("form") != "tuple":
+        ctx.branch("ravel:index-axis-chunked")
+    if inp.get("form") == "tuple":
+        ctx.branch("ravel:tuple-of-arrays")
+    if ((idx < 0) | (idx >= np.array(dims).reshape(k, 1))).any():
+        ctx.branch("ravel:out-of-range-coordinate:" + mode)
+
+
+def case_unravel(ctx, inp):
+    import numpy as np
+    import dask
+    import dask.array as da
+    setup_dask()
+    dims = tuple(inp["dims"])
+    idx = np.array(inp["idx"], dtype="i8")
+    order = inp["order"]
+    cs = tuple(inp["chunks"])
+    try:
+        e = np.unravel_index(idx, dims, order=order)
+    except ValueError:
+        e = None
+    m = None
+    if (idx >= 0).all():
+        m = ctx.lean(Sym("unravel"), Sym(order), list(dims), _split(idx, cs))
+    try:
+        r = da.unravel_index(da.from_array(idx, chunks=(cs,)), dims, order=order)
+        g = [np.asarray(t) for t in dask.compute(*r, scheduler="sync")]
+    except ValueError as ex:
+        if e is None:
+            if m is not None:
+                ctx.eq("unravel_index: an index out of bounds is rejected by the model too", m, ["raised"])
+            ctx.branch("unravel:rejected")
+            return
+        ctx.fail("unravel_index raised ValueError where NumPy does not", observed=str(ex)[:160])
+        return
+    if e is None:
+        ctx.fail("unravel_index accepted an index NumPy rejects", observed=[t.tolist() for t in g])
+        return
+    if len(g) != len(e):
+        ctx.fail("unravel_index: number of outputs differs", observed=len(g))
+        return
+    for a, b in zip(g, e):
+        _cmp(ctx, "unravel_index", a, b)
+    if m is not None and idx.size:
+        if m[0] != "ok":
+            ctx.disagree("unravel_index: the model raises, the code does not", m, [t.tolist() for t in g])
+            return
+        rows = [c for b in m[1] for c in b]
+        ctx.eq("unravel_index: Lean vs dask", rows, [[int(t[i]) for t in g] for i in range(len(idx))])
+        # round trip on the real code, the statement of unravel_index_ravel
+        back = da.ravel_multi_index(da.stack(list(r)), dims, order=order).compute(scheduler="sync")
+        ctx.eq("ravel_multi_index(unravel_index(i)) == i on the real code", np.asarray(back).tolist(), idx.tolist())
+        ctx.branch("unravel:model:" + order)
+
+
+CASES = {k: _api(v) for k, v in {
+    "searchsorted": case_searchsorted, "bincount": case_bincount, "histogram": case_histogram,
+    "unique": case_unique, "unique_internal": case_unique_internal, "nonzero": case_nonzero, "misc": case_misc,
+    "aligned": case_aligned, "coarsen1d": case_coarsen1d, "histdd": case_histdd, "digitize1d": case_digitize1d,
+    "compress1d": case_compress1d, "ravel": case_ravel, "unravel": case_unravel}.items()}
 
 
 def _nd(rng, maxd=3, maxn=5):
@@ -380,20 +952,184 @@ def _nd(rng, maxd=3, maxn=5):
     return shape, [rand_comp(rng, s) for s in shape]
 
 
-def generate(ctx):
+def _comp(rng, n, pz=0.2):
+    return rand_comp_zeros(rng, n) if rng.random() < pz else rand_comp(rng, n)
+
+
+COARSEN_CLASSES = ["max-multiple-others-not", "only-first-misaligned", "only-last-misaligned", "all-multiples",
+                   "first-multiple-others-not", "pair-compensating", "random", "factor-exceeds-axis"]
+
+
+def _coarsen_chunks(rng, cls, d):
+    """A chunk tuple of the given alignment class w.r.t. the factor d (what an alignment test that looks at one block,
+    at the largest block or at the first block only would get wrong)."""
+    mult = lambda hi=3: d * rng.randint(1, hi)
+    nonmult = lambda hi: rng.choice([c for c in range(1, hi + 1) if c % d] or [1])
+    if cls == "max-multiple-others-not":
+        big = d * rng.randint(1, 3)
+        others = [rng.randint(1, big) for _ in range(rng.randint(1, 4))]
+        others[rng.randrange(len(others))] = nonmult(big)
+        cs = others[:]
+        cs.insert(rng.randint(0, len(cs)), big)
+    elif cls == "only-first-misaligned":
+        cs = [nonmult(3 * d)] + [mult() for _ in range(rng.randint(1, 3))]
+    elif cls == "only-last-misaligned":
+        cs = [mult() for _ in range(rng.randint(1, 3))] + [nonmult(3 * d)]
+    elif cls == "all-multiples":
+        cs = [mult() for _ in range(rng.randint(1, 4))]
+    elif cls == "first-multiple-others-not":      # the first chunk is a multiple but not the largest chunk
+        cs = [d] + [nonmult(3 * d) for _ in range(rng.randint(1, 3))]
+        cs[rng.randint(1, len(cs) - 1)] = d + nonmult(2 * d)
+    elif cls == "pair-compensating":
+        a = nonmult(2 * d)
+        cs = [mult() for _ in range(rng.randint(0, 2))] + [a] + [mult() for _ in range(rng.randint(0, 2))] + [d - a % d] + \
+             [mult() for _ in range(rng.randint(0, 1))]
+    elif cls == "factor-exceeds-axis":
+        cs = rand_comp(rng, rng.randint(1, max(1, d - 1)))
+    else:
+        cs = rand_comp(rng, rng.randint(1, 14))
+    return cs
+
+
+def _gen_coarsen1d(ctx, count):
     rng = ctx.rng
-    # --- exhaustive small spaces: every chunking of short arrays ------------------------------------------
-    top = 4 if not ctx.thorough() else 6
-    for n in range(1, top + 1):
-        for cs in comps(n):
-            a = sorted(rng.randint(0, 3) for _ in range(n))
-            yield "searchsorted", {"a": a, "achunks": list(cs), "v": list(range(0, 5)), "vchunks": [[2, 3]], "side": "left"}
-            yield "searchsorted", {"a": a, "achunks": list(cs), "v": list(range(0, 5)), "vchunks": [[5]], "side": "right"}
-            x = [rng.randint(0, 3) for _ in range(n)]
-            yield "unique", {"x": x, "chunks": [list(cs)], "return_index": True, "return_counts": True}
-            yield "bincount", {"x": x, "chunks": list(cs)}
-            yield "nonzero", {"op": "flatnonzero", "x": [v % 2 * v for v in x], "shape": [n], "chunks": [list(cs)]}
-    # --- empty arrays / empty axes ------------------------------------------------------------------------------
+    for i in range(count):
+        cls = COARSEN_CLASSES[i % len(COARSEN_CLASSES)]
+        d = rng.randint(2, 5) if cls != "random" else rng.randint(1, 5)
+        cs = _coarsen_chunks(rng, cls, d)
+        exact = rng.random() < 0.5
+        if exact and sum(cs) % d and cls not in ("factor-exceeds-axis",):
+            # complete the total to a multiple with one more (misaligned) chunk so that trim_excess=False is legal
+            cs.insert(rng.randint(0, len(cs)), d - sum(cs) % d)
+        if rng.random() < 0.2:
+            cs.insert(rng.randint(0, len(cs)), 0)
+        n = sum(cs)
+        trim = True if (n % d and rng.random() < 0.85) else rng.random() < 0.4
+        yield "coarsen1d", {"x": [rng.randint(0, 9) for _ in range(n)], "chunks": cs, "d": d, "trim": trim,
+                            "red": rng.choice(["sum", "sum", "sum", "max", "min"])}
+
+
+def _gen_coarsen_nd(ctx, count):
+    rng = ctx.rng
+    for i in range(count):
+        nd = rng.choice([1, 2, 2, 2, 3])
+        axes, chunks = {}, []
+        for ax in range(nd):
+            if rng.random() < 0.8 or ax == 0:
+                d = rng.randint(1, 4)
+                cls = rng.choice(COARSEN_CLASSES[:7])
+                cs = _coarsen_chunks(rng, cls, d)
+                if len(cs) > 4:
+                    cs = cs[:4]
+                if sum(cs) > 9:
+                    cs = rand_comp(rng, rng.randint(1, 9))
+                if rng.random() < 0.6 and sum(cs) % d:
+                    cs.append(d - sum(cs) % d)
+                axes[str(ax)] = d
+            else:
+                cs = _comp(rng, rng.randint(1, 5), 0.15)
+            chunks.append(cs)
+        shape = [sum(c) for c in chunks]
+        trim = rng.random() < (0.8 if any(shape[int(a)] % dv for a, dv in axes.items()) else 0.4)
+        yield "misc", {"op": "coarsen", "x": [rng.randint(0, 9) for _ in range(math.prod(shape))], "shape": shape, "chunks": chunks,
+                       "axes": axes, "red": rng.choice(["sum", "max", "min"]), "trim": trim}
+
+
+def _gen_aligned_random(ctx, count):
+    rng = ctx.rng
+    for _ in range(count):
+        m = rng.randint(1, 12)
+        css = []
+        for _ in range(40):
+            k = rng.choice([1, 2, 3, 5, 8, 12, 16, 16, 20, 30])
+            cs = [rng.choice([0, rng.randint(1, 3 * m), m * rng.randint(1, 3), rng.randint(1, 40)]) for _ in range(k)]
+            css.append(cs)
+        yield "aligned", {"m": m, "chunks": css}
+
+
+def _edges(rng, lo=0, hi=10):
+    k = rng.randint(1, 4)
+    e = sorted(rng.sample(range(lo, hi + 1), k + 1))
+    if rng.random() < 0.1:                      # a zero-width bin (NumPy accepts equal consecutive edges)
+        j = rng.randrange(len(e))
+        e.insert(j, e[j])
+    return e
+
+
+def _on_edges(rng, n, edges, lo=0, hi=10):
+    return [rng.choice(edges) if rng.random() < 0.4 else rng.randint(lo - 1 if lo else 0, hi + 1) for _ in range(n)]
+
+
+def _gen_histdd(ctx, count):
+    rng = ctx.rng
+    for _ in range(count):
+        if rng.random() < 0.55:
+            n = rng.randint(0 if rng.random() < 0.08 else 1, 14)
+            ex, ey = _edges(rng), _edges(rng)
+            xc = _comp(rng, n, 0.25)
+            yc = xc if rng.random() < 0.88 else _comp(rng, n, 0.25)
+            yield "histdd", {"form": "xy", "x": _on_edges(rng, n, ex), "y": _on_edges(rng, n, ey), "xchunks": xc, "ychunks": list(yc),
+                             "edges": [ex, ey]}
+        else:
+            D = rng.randint(1, 3)
+            n = rng.randint(0 if rng.random() < 0.08 else 1, 10)
+            edges = [_edges(rng) for _ in range(D)]
+            rows = [[v for ed in edges for v in _on_edges(rng, 1, ed)] for _ in range(n)]
+            yield "histdd", {"form": "rows", "rows": rows, "chunks": _comp(rng, n, 0.25), "edges": edges}
+
+
+def _gen_digitize1d(ctx, count):
+    rng = ctx.rng
+    for _ in range(count):
+        k = rng.randint(0 if rng.random() < 0.1 else 1, 5)
+        bins = sorted(rng.randint(0, 9) for _ in range(k))
+        r = rng.random()
+        if r < 0.38:
+            bins.reverse()
+        elif r < 0.45 and k >= 3:
+            rng.shuffle(bins)
+        n = rng.randint(0 if rng.random() < 0.08 else 1, 12)
+        x = [rng.choice(bins) if bins and rng.random() < 0.5 else rng.randint(0, 10) for _ in range(n)]
+        yield "digitize1d", {"x": x, "bins": bins, "right": rng.random() < 0.5, "chunks": _comp(rng, n, 0.25)}
+
+
+def _gen_compress1d(ctx, count):
+    rng = ctx.rng
+    for _ in range(count):
+        n = rng.randint(1, 12)
+        r = rng.random()
+        k = n if r < 0.35 else (rng.randint(n + 1, n + 3) if r < 0.41 else rng.randint(0 if rng.random() < 0.15 else 1, n))
+        yield "compress1d", {"x": [rng.randint(0, 9) for _ in range(n)], "chunks": _comp(rng, n, 0.2),
+                             "cond": [rng.random() < 0.5 for _ in range(k)], "cchunks": _comp(rng, k, 0.2)}
+
+
+def _gen_ravel(ctx, count):
+    rng = ctx.rng
+    for _ in range(count):
+        dims = [rng.randint(1, 4) for _ in range(rng.randint(1, 3))]
+        n = rng.randint(0 if rng.random() < 0.08 else 1, 6)
+        mode = rng.choice(["raise", "raise", "raise", "wrap", "clip"])
+        wild = mode != "raise" or rng.random() < 0.15
+        idx = [rng.randint(-6, 8) if wild and rng.random() < 0.5 else rng.randrange(dm) for dm in dims for _ in range(n)]
+        yield "ravel", {"dims": dims, "idx": idx, "order": rng.choice(["C", "F"]), "mode": mode,
+                        "form": "tuple" if rng.random() < 0.25 else "stack", "chunks0": rand_comp(rng, len(dims)),
+                        "chunks1": _comp(rng, n, 0.2)}
+
+
+def _gen_unravel(ctx, count):
+    rng = ctx.rng
+    for _ in range(count):
+        dims = [rng.randint(1, 4) for _ in range(rng.randint(1, 3))]
+        n = rng.randint(0 if rng.random() < 0.08 else 1, 8)
+        p = math.prod(dims)
+        idx = [rng.randrange(p) for _ in range(n)]
+        if n and rng.random() < 0.12:
+            idx[rng.randrange(n)] = rng.choice([p, p + 1, -1])
+        yield "unravel", {"dims": dims, "idx": idx, "order": rng.choice(["C", "F"]), "chunks": _comp(rng, n, 0.2)}
+
+
+def _gen_explicit(ctx):
+    """Fixed inputs: empty arrays / axes and the inputs of the defects repaired so far."""
     yield "searchsorted", {"a": [], "achunks": [0], "v": [1, 2], "vchunks": [[1, 1]], "side": "left"}
     yield "searchsorted", {"a": [1, 2], "achunks": [1, 1], "v": [], "vshape": [0], "vchunks": [[0]], "side": "right"}
     yield "unique", {"x": [], "shape": [0], "chunks": [[0]], "return_index": True, "return_counts": True}
@@ -407,18 +1143,130 @@ def generate(ctx):
     yield "misc", {"op": "isin", "x": [1, 2], "shape": [2], "chunks": [[1, 1]], "t": [], "tchunks": [0]}
     yield "misc", {"op": "digitize", "x": [], "shape": [0, 2], "chunks": [[0], [1, 1]], "bins": [1, 2], "right": False}
     yield "misc", {"op": "compress", "x": [], "shape": [0, 2], "chunks": [[0], [1, 1]], "cond": [True, False], "axis": 1, "cchunks": [2]}
-    # --- searchsorted ---------------------------------------------------------------------------------------
-    for _ in range(ctx.n(200, 2500)):
+    # empty index arrays of every rank (unravel_index kept the shape only for 1-d ones)
+    for ishape, ch in (([0], [[0]]), ([0, 3], [[0], [2, 1]]), ([2, 0], [[1, 1], [0]])):
+        for order in "CF":
+            yield "misc", {"op": "unravel_index", "dims": [2, 3], "ishape": ishape, "idx": [], "order": order, "chunks": ch}
+    # coarsen along an empty axis / with a factor larger than the axis (empty result axis)
+    for trim in (False, True):
+        yield "coarsen1d", {"x": [], "chunks": [0], "d": 2, "trim": trim}
+        yield "coarsen1d", {"x": [], "chunks": [0, 0], "d": 3, "trim": trim}
+        yield "misc", {"op": "coarsen", "x": [], "shape": [0, 4], "chunks": [[0], [1, 3]], "axes": {"0": 2, "1": 2}, "red": "sum", "trim": trim}
+    yield "coarsen1d", {"x": [0, 1, 2], "chunks": [1, 2], "d": 4, "trim": True}
+    yield "misc", {"op": "coarsen", "x": list(range(6)), "shape": [3, 2], "chunks": [[1, 2], [1, 1]], "axes": {"0": 4, "1": 2},
+                   "red": "sum", "trim": True}
+
+
+def _gen_exhaustive(ctx):
+    rng = ctx.rng
+    th = ctx.thorough()
+    # aligned_coarsen_chunks at function level: every chunking of n against every factor 1..n+1 (one case per (n, factor))
+    top = 12 if th else 9
+    for n in range(1, top + 1):
+        for m in range(1, n + 2):
+            yield "aligned", {"n": n, "m": m}
+            if n <= top - 2:
+                yield "aligned", {"n": n, "m": m, "zeros": True}
+    # da.coarsen at API level: every chunking of short axes, every factor, with and without trim_excess
+    for n in range(1, (7 if th else 5) + 1):
+        for cs in comps(n):
+            for d in range(1, n + 2):
+                for trim in (False, True):
+                    yield "coarsen1d", {"x": [(3 * i + 1) % 10 for i in range(n)], "chunks": list(cs), "d": d, "trim": trim}
+    # every chunking of short arrays for the merge routines
+    top = 4 if not th else 6
+    for n in range(1, top + 1):
+        for cs in comps(n):
+            a = sorted(rng.randint(0, 3) for _ in range(n))
+            yield "searchsorted", {"a": a, "achunks": list(cs), "v": list(range(0, 5)), "vchunks": [[2, 3]], "side": "left"}
+            yield "searchsorted", {"a": a, "achunks": list(cs), "v": list(range(0, 5)), "vchunks": [[5]], "side": "right"}
+            x = [rng.randint(0, 3) for _ in range(n)]
+            yield "unique", {"x": x, "chunks": [list(cs)], "return_index": True, "return_counts": True}
+            yield "bincount", {"x": x, "chunks": list(cs)}
+            yield "nonzero", {"op": "flatnonzero", "x": [v % 2 * v for v in x], "shape": [n], "chunks": [list(cs)]}
+            yield "digitize1d", {"x": x, "bins": [1, 2, 2], "right": bool(n % 2), "chunks": list(cs)}
+            yield "compress1d", {"x": x, "chunks": list(cs), "cond": [v % 2 == 1 for v in x][: max(1, n - 1)],
+                                 "cchunks": list(comps(max(1, n - 1))[len(cs) % len(comps(max(1, n - 1)))])}
+            yield "histdd", {"form": "xy", "x": x, "y": list(reversed(x)), "xchunks": list(cs), "ychunks": list(cs),
+                             "edges": [[0, 1, 3], [0, 2, 3]]}
+    # every flat index of small shapes, both orders (round trip on the real code inside the case)
+    dimss = [list(t) for k in (1, 2) for t in itertools.product(range(1, 4), repeat=k)]
+    if th:
+        dimss += [list(t) for t in itertools.product(range(1, 4), repeat=3)] + [list(t) for t in itertools.product((4, 5), repeat=2)]
+    for dims in dimss:
+        p = math.prod(dims)
+        for order in "CF":
+            yield "unravel", {"dims": dims, "idx": list(range(p)), "order": order, "chunks": rand_comp(rng, p)}
+            idx = [i for t in zip(*itertools.product(*[range(dm) for dm in dims])) for i in t]
+            yield "ravel", {"dims": dims, "idx": idx, "order": order, "mode": "raise", "form": "stack",
+                            "chunks0": rand_comp(rng, len(dims)), "chunks1": rand_comp(rng, p)}
+
+
+def _interleave(gens):
+    gens = list(gens)
+    while gens:
+        alive = []
+        for g in gens:
+            try:
+                yield next(g)
+                alive.append(g)
+            except StopIteration:
+                pass
+        gens = alive
+
+
+def generate(ctx):
+    yield from _gen_explicit(ctx)
+    # the structured coarsen stream comes first and is interleaved with everything else, so that a run cut short by the
+    # deadline has still seen every alignment class
+    yield from _interleave([
+        _gen_exhaustive(ctx),
+        _gen_coarsen1d(ctx, ctx.n(200, 2400)),
+        _gen_coarsen_nd(ctx, ctx.n(110, 1300)),
+        _gen_aligned_random(ctx, ctx.n(20, 250)),
+        _gen_searchsorted(ctx, ctx.n(220, 2600)),
+        _gen_bincount(ctx, ctx.n(170, 2000)),
+        _gen_histogram(ctx, ctx.n(200, 2400)),
+        _gen_histdd(ctx, ctx.n(140, 1700)),
+        _gen_unique(ctx, ctx.n(230, 2600)),
+        _gen_unique_internal(ctx, ctx.n(150, 1500)),
+        _gen_nonzero(ctx, ctx.n(180, 2200)),
+        _gen_digitize1d(ctx, ctx.n(110, 1300)),
+        _gen_compress1d(ctx, ctx.n(110, 1300)),
+        _gen_ravel(ctx, ctx.n(110, 1300)),
+        _gen_unravel(ctx, ctx.n(80, 1000)),
+        _gen_misc(ctx, ctx.n(200, 2400)),
+    ])
+
+
+def _gen_searchsorted(ctx, count):
+    rng = ctx.rng
+    for _ in range(count):
         n = rng.randint(1, 16)
         hi = rng.choice([2, 4, 9, 30])
         a = sorted(rng.randint(0, hi) for _ in range(n))
         achunks = rand_comp_zeros(rng, n) if rng.random() < 0.3 else rand_comp(rng, n)
         vshape = [rng.randint(1, 5) for _ in range(rng.randint(1, 2))]
-        v = [rng.randint(0, hi + 1) for _ in range(math.prod(vshape))]
-        yield "searchsorted", {"a": a, "achunks": achunks, "v": v, "vshape": vshape, "vchunks": [rand_comp(rng, s) for s in vshape],
-                               "side": rng.choice(["left", "right"]), "dtype": rng.choice(["i8", "i8", "f8"])}
-    # --- bincount -------------------------------------------------------------------------------------------
-    for _ in range(ctx.n(150, 2000)):
+        nv = math.prod(vshape)
+        # needles: values sitting at the chunk boundaries of `a`, just outside the range, anything
+        bnd, off = [], 0
+        for c in achunks:
+            if c:
+                bnd += [a[off], a[off + c - 1]]
+            off += c
+        v = [rng.choice(bnd) if bnd and rng.random() < 0.45 else rng.randint(-1, hi + 1) for _ in range(nv)]
+        inp = {"a": a, "achunks": achunks, "v": v, "vshape": vshape, "vchunks": [rand_comp(rng, s) for s in vshape],
+               "side": rng.choice(["left", "right"]), "dtype": rng.choice(["i8", "i8", "f8"])}
+        if inp["dtype"] == "f8" and rng.random() < 0.5:       # a run of NaN at the end of `a` (and NaN needles)
+            k = rng.randint(1, min(4, n))
+            inp["anan"] = [False] * (n - k) + [True] * k
+            inp["vnan"] = [rng.random() < 0.25 for _ in range(nv)]
+        yield "searchsorted", inp
+
+
+def _gen_bincount(ctx, count):
+    rng = ctx.rng
+    for _ in range(count):
         n = rng.randint(0 if rng.random() < 0.05 else 1, 20)
         x = [rng.randint(0, rng.choice([1, 3, 8])) for _ in range(n)]
         inp = {"x": x, "chunks": (rand_comp_zeros(rng, n) if rng.random() < 0.2 else rand_comp(rng, n)) if n else [0],
@@ -426,44 +1274,66 @@ def generate(ctx):
         if rng.random() < 0.4:
             inp["weights"] = [rng.randint(-3, 6) / rng.choice([1, 2, 4]) for _ in range(n)]
         yield "bincount", inp
-    # --- histogram ------------------------------------------------------------------------------------------
-    for _ in range(ctx.n(200, 2500)):
+
+
+def _gen_histogram(ctx, count):
+    rng = ctx.rng
+    for _ in range(count):
         r = rng.random()
-        if r < 0.15:
+        if r < 0.12:
             n = rng.randint(1, 14)
             cs = rand_comp(rng, n)
             bins = rng.choice([rng.randint(1, 4), [rng.randint(1, 4), rng.randint(1, 4)]])
-            yield "histogram", {"op": "2d", "x": [rng.randint(0, 9) for _ in range(n)], "y": [rng.randint(0, 9) for _ in range(n)],
-                                "chunks": [cs], "bins": bins, "range": [[0, 10], [0, 10]] if rng.random() < 0.9 else [[2, 7], [1, 9]],
-                                "dtype": rng.choice(["i8", "f8"])}
+            inp = {"op": "2d", "x": [rng.randint(0, 9) for _ in range(n)], "y": [rng.randint(0, 9) for _ in range(n)],
+                   "chunks": [cs], "bins": bins, "range": [[0, 10], [0, 10]] if rng.random() < 0.9 else [[2, 7], [1, 9]],
+                   "dtype": rng.choice(["i8", "f8"])}
+            if rng.random() < 0.3:
+                inp["weights"] = [rng.randint(0, 5) / 2 for _ in range(n)]
+            if rng.random() < 0.2:
+                inp["density"] = True
+            yield "histogram", inp
             continue
         shape, chunks = _nd(rng, 2, 8) if rng.random() < 0.3 else (None, None)
         if shape is None:
             n = rng.randint(1, 20)
             shape, chunks = [n], [rand_comp_zeros(rng, n) if rng.random() < 0.15 else rand_comp(rng, n)]
         n = math.prod(shape)
-        inp = {"x": [rng.randint(0, 12) for _ in range(n)], "shape": shape, "chunks": chunks}
+        inp = {"shape": shape, "chunks": chunks}
         if rng.random() < 0.55:
-            k = rng.randint(1, 5)
-            inp["edges"] = sorted(rng.sample(range(0, 14), k + 1))
+            inp["edges"] = _edges(rng, 0, 13)
+            # values exactly on the edges (the closed last one included), so that they fall on both sides of chunk boundaries
+            inp["x"] = [rng.choice(inp["edges"]) if rng.random() < 0.4 else rng.randint(0, 14) for _ in range(n)]
         else:
             lo = rng.randint(0, 5)
             inp["bins"], inp["range"] = rng.randint(1, 6), [lo, lo + rng.randint(1, 10)]
             inp["dtype"] = rng.choice(["i8", "f8"])
+            inp["x"] = [rng.choice(inp["range"]) if rng.random() < 0.25 else rng.randint(0, 12) for _ in range(n)]
         if rng.random() < 0.3:
             inp["weights"] = [rng.randint(0, 5) / 2 for _ in range(n)]
         if rng.random() < 0.2:
             inp["density"] = True
         yield "histogram", inp
-    # --- unique ---------------------------------------------------------------------------------------------
-    for _ in range(ctx.n(220, 2500)):
+
+
+def _gen_unique(ctx, count):
+    rng = ctx.rng
+    for _ in range(count):
         if rng.random() < 0.25:
             shape, chunks = _nd(rng, 2, 5)
         else:
             n = rng.randint(1, 16)
-            shape, chunks = [n], [rand_comp(rng, n)]
+            shape, chunks = [n], [_comp(rng, n, 0.15)]
         n = math.prod(shape)
-        inp = {"x": [rng.randint(0, rng.choice([2, 5, 20])) for _ in range(n)], "shape": shape, "chunks": chunks}
+        hi = rng.choice([2, 5, 20])
+        if rng.random() < 0.4:      # runs of equal values, so that duplicates straddle chunk boundaries
+            x, v = [], rng.randint(0, hi)
+            while len(x) < n:
+                x += [v] * rng.randint(1, 4)
+                v = rng.randint(0, hi)
+            x = x[:n]
+        else:
+            x = [rng.randint(0, hi) for _ in range(n)]
+        inp = {"x": x, "shape": shape, "chunks": chunks}
         r = rng.random()
         if r < 0.4:
             inp.update(return_index=True, return_counts=True)
@@ -471,16 +1341,27 @@ def generate(ctx):
             for k in ("return_index", "return_inverse", "return_counts"):
                 if rng.random() < 0.4:
                     inp[k] = True
-        if rng.random() < 0.12:
-            inp["nan"] = [rng.random() < 0.3 for _ in range(n)]
+        if rng.random() < 0.2:
+            if rng.random() < 0.5:
+                inp["nan"] = [rng.random() < 0.3 for _ in range(n)]
+            else:               # a run of NaN
+                a = rng.randrange(n)
+                inp["nan"] = [a <= i < a + 3 for i in range(n)]
         elif rng.random() < 0.2:
             inp["dtype"] = "f8"
         yield "unique", inp
-    for _ in range(ctx.n(150, 1500)):
+
+
+def _gen_unique_internal(ctx, count):
+    rng = ctx.rng
+    for _ in range(count):
         k = rng.randint(1, 12)
         yield "unique_internal", {"rows": [[rng.randint(0, 5), rng.randint(0, 40), rng.randint(1, 4)] for _ in range(k)]}
-    # --- nonzero family ---------------------------------------------------------------------------------------
-    for _ in range(ctx.n(160, 2000)):
+
+
+def _gen_nonzero(ctx, count):
+    rng = ctx.rng
+    for _ in range(count):
         op = rng.choice(["nonzero", "argwhere", "flatnonzero", "flatnonzero", "count_nonzero"])
         shape, chunks = _nd(rng) if (op != "flatnonzero" or rng.random() < 0.4) else (None, None)
         if shape is None:
@@ -492,57 +1373,54 @@ def generate(ctx):
         if op == "count_nonzero":
             inp["axis"] = rng.choice([None, rng.randrange(len(shape)), sorted(rng.sample(range(len(shape)), rng.randint(1, len(shape))))])
         yield "nonzero", inp
+
+
+def _gen_misc(ctx, count):
+    rng = ctx.rng
     # --- 1-d coarsen with chunks aligned to the factor (the case `coarsen_den` is about) -------------------------
-    for _ in range(ctx.n(40, 500)):
+    for _ in range(max(1, count // 8)):
         dv = rng.randint(1, 4)
         chunks = [dv * c for c in rand_comp(rng, rng.randint(1, 6))]
         n = sum(chunks)
         yield "misc", {"op": "coarsen", "x": [rng.randint(0, 9) for _ in range(n)], "shape": [n], "chunks": [chunks],
                        "axes": {"0": dv}, "red": "sum", "trim": rng.random() < 0.5}
-    # --- the rest -----------------------------------------------------------------------------------------------
-    for _ in range(ctx.n(220, 2500)):
-        op = rng.choice(["isin", "digitize", "ravel_multi_index", "unravel_index", "coarsen", "coarsen", "compress", "extract"])
+    for _ in range(count):
+        op = rng.choice(["isin", "isin", "digitize", "ravel_multi_index", "unravel_index", "compress", "compress", "extract"])
         if op == "isin":
             shape, chunks = _nd(rng)
             k = rng.randint(1, 8)
             yield "misc", {"op": op, "x": [rng.randint(0, 9) for _ in range(math.prod(shape))], "shape": shape, "chunks": chunks,
-                           "t": [rng.randint(0, 9) for _ in range(k)], "tchunks": rand_comp(rng, k), "invert": rng.random() < 0.3}
+                           "t": [rng.randint(0, 9) for _ in range(k)], "tchunks": _comp(rng, k, 0.2), "invert": rng.random() < 0.3}
         elif op == "digitize":
             shape, chunks = _nd(rng)
-            yield "misc", {"op": op, "x": [rng.randint(0, 12) for _ in range(math.prod(shape))], "shape": shape, "chunks": chunks,
-                           "bins": sorted(set(rng.randint(0, 12) for _ in range(rng.randint(1, 5)))), "right": rng.random() < 0.5,
-                           "decreasing": rng.random() < 0.25, "dtype": rng.choice(["i8", "f8"])}
+            bins = sorted(set(rng.randint(0, 12) for _ in range(rng.randint(1, 5))))
+            x = [rng.choice(bins) if rng.random() < 0.3 else rng.randint(0, 12) for _ in range(math.prod(shape))]
+            yield "misc", {"op": op, "x": x, "shape": shape, "chunks": chunks,
+                           "bins": bins, "right": rng.random() < 0.5,
+                           "decreasing": rng.random() < 0.25, "dtype": rng.choice(["i8", "f8"]),
+                           "nan": [rng.random() < 0.2 for _ in x] if rng.random() < 0.5 else None}
         elif op == "ravel_multi_index":
             dims = [rng.randint(1, 5) for _ in range(rng.randint(1, 3))]
             ishape = [rng.randint(1, 4) for _ in range(rng.randint(1, 2))]
             idx = [rng.randrange(dm) for dm in dims for _ in range(math.prod(ishape))]
             yield "misc", {"op": op, "dims": dims, "ishape": ishape, "idx": idx, "order": rng.choice(["C", "F"]),
-                           "chunks": [[len(dims)]] + [rand_comp(rng, s) for s in ishape]}
+                           "chunks": [rand_comp(rng, len(dims))] + [rand_comp(rng, s) for s in ishape]}
         elif op == "unravel_index":
             dims = [rng.randint(1, 5) for _ in range(rng.randint(1, 3))]
             ishape = [rng.randint(1, 4) for _ in range(rng.randint(1, 2))]
             yield "misc", {"op": op, "dims": dims, "ishape": ishape, "idx": [rng.randrange(math.prod(dims)) for _ in range(math.prod(ishape))],
                            "order": rng.choice(["C", "F"]), "chunks": [rand_comp(rng, s) for s in ishape]}
-        elif op == "coarsen":
-            nd = rng.randint(1, 2)
-            axes, shape = {}, []
-            for i in range(nd):
-                dv = rng.randint(1, 4)
-                shape.append(dv * rng.randint(1, 4) + (rng.randint(0, dv - 1) if rng.random() < 0.3 else 0))
-                if rng.random() < 0.8 or i == 0:
-                    axes[str(i)] = dv
-            chunks = [rand_comp(rng, s) for s in shape]
-            if rng.random() < 0.4:  # chunks already aligned to the factor
-                chunks = [[axes.get(str(i), 1) * c for c in rand_comp(rng, max(1, s // axes.get(str(i), 1)))] for i, s in enumerate(shape)]
-                shape = [sum(c) for c in chunks]
-            yield "misc", {"op": op, "x": [rng.randint(0, 9) for _ in range(math.prod(shape))], "shape": shape, "chunks": chunks,
-                           "axes": axes, "red": rng.choice(["sum", "max", "min"]), "trim": rng.random() < 0.5}
         else:
             shape, chunks = _nd(rng)
             n = math.prod(shape)
             ax = rng.choice([None, rng.randrange(len(shape))])
             ln = n if ax is None else shape[ax]
             k = rng.randint(1, ln)
+            dask_cond = rng.random() < 0.5
+            cond = [rng.random() < 0.5 for _ in range(k if op == "compress" else n)]
+            if op == "compress" and not dask_cond and rng.random() < 0.25:
+                # a NumPy condition longer than the axis: fine while the surplus entries are False
+                cond = [rng.random() < 0.5 for _ in range(ln)] + [rng.random() < 0.15 for _ in range(rng.randint(1, 3))]
+                k = len(cond)
             yield "misc", {"op": op, "x": [rng.randint(0, 9) for _ in range(n)], "shape": shape, "chunks": chunks,
-                           "cond": [rng.random() < 0.5 for _ in range(k if op == "compress" else n)], "axis": ax,
-                           "dask_cond": rng.random() < 0.5, "cchunks": rand_comp(rng, k)}
+                           "cond": cond, "axis": ax, "dask_cond": dask_cond, "cchunks": rand_comp(rng, k)}
